@@ -471,6 +471,18 @@ func (rc *repoCase) runOne(pl *planInfo, form string, mi int, dry bool, runDir s
 			}
 			if all {
 				trig = "nested-gitattributes-subdir"
+			} else {
+				// every pointer problem of this run is an executable file
+				allX := true
+				for _, p := range ptrReq {
+					if p.Mode != "100755" {
+						allX = false
+						break
+					}
+				}
+				if allX {
+					trig = "executable-tracked-file"
+				}
 			}
 		} else if fiSet {
 			// every damaged object of this run has a path outside lfs.fetchinclude: the coordinate is the setting
@@ -517,10 +529,15 @@ func (rc *repoCase) runOne(pl *planInfo, form string, mi int, dry bool, runDir s
 		run.Count("object_items_excluded_by_fetchexclude", int64(len(ex.ObjExcluded)))
 		for _, oid := range histgen.SortedKeys(objReq) {
 			run.Count("object_items_compared", 1)
+			if ex.ObjExecOnly[oid] {
+				run.Count("damaged_objects_referenced_only_by_executable_pointers", 1)
+			}
 			if _, ok := rp.Objects[oid]; !ok {
 				trig := form + "-arg/" + rc.kindOfOid(pl, oid) + fxT
 				if fiOut[oid] > 0 {
 					trig = "fetchinclude-set"
+				} else if ex.ObjExecOnly[oid] {
+					trig = "object-of-executable-pointer-only"
 				}
 				viol("object-not-named", trig, fmt.Sprintf("object %s (referenced by %q, damage: %s) is missing or corrupt but not named", oid, ex.ObjPaths[oid], rc.kindOfOid(pl, oid)))
 			}
@@ -545,6 +562,9 @@ func (rc *repoCase) runOne(pl *planInfo, form string, mi int, dry bool, runDir s
 		run.Count("pointer_items_expected", int64(len(ptrReq)))
 		run.Count("pointer_items_reported", int64(len(rp.PtrPairs)+len(rp.PtrBlobs)))
 		run.Count("tracked_paths_evaluated", int64(ex.TrackedSeen))
+		run.Count("tracked_paths_evaluated_mode_100755", int64(ex.TrackedExec))
+		run.Count("tracked_paths_evaluated_mode_100644", int64(ex.TrackedSeen-ex.TrackedExec))
+		run.Count("tracked_symlinks_not_judged", int64(ex.TrackedLinks))
 		run.Count("pointer_items_not_judged", int64(len(ex.PtrPairs)-len(ptrReq)+len(ex.PtrIndexOnly)))
 		namedPaths := map[string]bool{}
 		for _, pr := range rp.PtrPairs {
@@ -552,8 +572,13 @@ func (rc *repoCase) runOne(pl *planInfo, form string, mi int, dry bool, runDir s
 		}
 		for _, p := range ptrReq {
 			run.Count("pointer_items_compared", 1)
+			run.Count("pointer_items_expected_mode_"+p.Mode, 1)
 			if !namedPaths[p.Path] && !rp.PtrBlobs[p.Blob] {
-				viol("pointer-not-named", rc.attrCoordinate(p.Commit, p.Path, form+"-arg/"+rc.kindOfPath(p.Path)+fxT), fmt.Sprintf("path %q in commit %s is tracked (filter=lfs per git check-attr) and its blob %s is not a canonical pointer, but it is not named", p.Path, p.Commit, p.Blob))
+				dflt := form + "-arg/" + rc.kindOfPath(p.Path) + fxT
+				if p.Mode == "100755" {
+					dflt = "executable-tracked-file" // the mode coordinate of the planted blob
+				}
+				viol("pointer-not-named", rc.attrCoordinate(p.Commit, p.Path, dflt), fmt.Sprintf("path %q in commit %s is tracked (filter=lfs per git check-attr) and its blob %s is not a canonical pointer, but it is not named", p.Path, p.Commit, p.Blob))
 			}
 		}
 		checked := map[string]bool{}
@@ -767,11 +792,15 @@ func buildRepo(run *evid.Run, idx int) *repoCase {
 	env := sbx.New()
 	rc := &repoCase{run: run, idx: idx, env: env, odd: map[string]string{}, oddB: map[string]string{}, attrCache: map[string]string{}}
 	rc.g = histgen.New(env, "work", run.Seed*7919+int64(idx), histgen.Options{Commits: 5 + r.Intn(9), Merges: true, Tags: true, TrackToggles: true, Symlinks: true, ExecBits: true, EmptyFiles: true})
-	rc.ex = addExtras(env, rc.g, r, idx)
+	rc.ex = addExtras(env, rc.g, r, rand.New(rand.NewSource(run.Seed*1000003+int64(idx)*977+55001)), idx)
 	rc.ri = newRepoInfo(env, rc.g.Dir)
 	for _, o := range rc.ex.Odd {
 		rc.odd[o.Path] = o.Kind
 		run.Count("odd_blobs_committed_"+o.Kind, 1)
+		if o.Mode != "" {
+			run.Count("odd_blobs_committed_mode_"+o.Mode, 1)
+			run.Count("odd_blobs_committed_"+o.Kind+"_mode_"+o.Mode, 1)
+		}
 	}
 	rc.refOids = map[string]bool{}
 	for _, ci := range rc.ri.Commits {
